@@ -16,7 +16,7 @@ theorem node_beq_refl (n : Node) : (n == n) = true := beq_refl_node n
 /-- the receiver of an instrumented call when it is a literal: it stays where it is -/
 theorem recv_lit (cx : Cx) (lo hi : Nat) (obj' obj : Node) (s : St) (hl : obj'.isLit = true)
     (hE : Er cx lo hi obj' obj) :
-    ∀ asg0'', BRgL [] asg0'' → ∀ σ, cx.ext σ → ∃ X Δ0, eraseAsg σ asg0'' = Δ0 ++ σ ∧ Sim X obj ∧ WinU lo hi s.counter s.counter Δ0 ∧
+    ∀ asg0'', BRgL [] asg0'' → ∀ σ, cx.ext σ → ∃ X Δ0, eraseAsg σ asg0'' = Δ0 ++ σ ∧ ESim X obj ∧ WinU lo hi s.counter s.counter Δ0 ∧
       ∀ Δ2, Avoid s.counter s.counter Δ2 → erase (Δ2 ++ (Δ0 ++ σ)) obj' = (X, Δ2 ++ (Δ0 ++ σ)) := by
   intro asg0'' ha σ hσ
   rw [BRgL.nil_inv ha]
@@ -32,7 +32,7 @@ theorem recv_temp (cx : Cx) (lo hi : Nat) (obj' obj : Node) (csp : Span) (s s0 :
     (hE : Er cx lo hi obj' obj) :
     ∀ asg0'', BRgL ([] ++ [.assign "=" (tempIdent s.counter) (assignRight obj' .expr) csp]) asg0'' →
     ∀ σ, cx.ext σ → ∃ X Δ0, eraseAsg σ asg0'' = Δ0 ++ σ ∧
-      Sim X obj ∧ WinU lo hi s.counter s0.counter Δ0 ∧
+      ESim X obj ∧ WinU lo hi s.counter s0.counter Δ0 ∧
       ∀ Δ2, Avoid s.counter s0.counter Δ2 → erase (Δ2 ++ (Δ0 ++ σ)) (tempIdent s.counter) = (X, Δ2 ++ (Δ0 ++ σ)) := by
   intro asg0'' ha σ hσ
   simp only [List.nil_append] at ha
@@ -113,14 +113,14 @@ theorem viaTemp_core (σf Δ3 : Env) (t1 : Nat) (ca : String) (csp : Span) (idR 
   rw [erase_call_viaTemp _ _ _ _ _ _ _ _ _ hget, eraseL_cons']
   simp only [erase, hthis, hxs]
 
-theorem noBlk_member {o p : Node} {sp : Span} (ho : noBlk o = true) (hp : noBlk p = true) : noBlk (.member o p sp) = true := by
+theorem noBlk_memberE {o p : Node} {sp : Span} (ho : noBlk o = true) (hp : noBlk p = true) : noBlk (.member o p sp) = true := by
   rw [noBlk_eq]
   simp only [isBlockNode, kids, noBlkL_cons, noBlkL_nil, ho, hp]
   rfl
 
-theorem noBlk_tempAssign {k : Nat} {r : Node} {sp : Span} (hr : noBlk r = true) : noBlk (.assign "=" (tempIdent k) r sp) = true := by
+theorem noBlk_tempAssignE {k : Nat} {r : Node} {sp : Span} (hr : noBlk r = true) : noBlk (.assign "=" (tempIdent k) r sp) = true := by
   rw [noBlk_eq]
-  simp only [isBlockNode, kids, noBlkL_cons, noBlkL_nil, noBlk_tempIdent, hr]
+  simp only [isBlockNode, kids, noBlkL_cons, noBlkL_nil, noBlk_tempIdentE, hr]
   rfl
 
 /-- the method-call form: `(t0 = recv, t1 = t0.m, hook(t1.call(t0, args…), t1, t0, args…))` erases to `recv.m(args…)` -/
@@ -131,7 +131,7 @@ theorem callTail_plain_Er (csi : CsiMethod) (cx : Cx) (lo hi : Nat) (obj' obj : 
     (hp2 : strip p2 = .pname method Span.dummy)
     (ha : Forall2 (fun a' a => Er cx lo hi a' a ∧ DeepEr cx lo hi a' a) cargs' cargs)
     (c0 : s.counter ≤ s0.counter) (ta0 : AllTA asg0) (inR : Inert idR) (nbR : noBlk idR = true)
-    (P0 : ∀ asg0'', BRgL asg0 asg0'' → ∀ σ, cx.ext σ → ∃ X Δ0, eraseAsg σ asg0'' = Δ0 ++ σ ∧ Sim X obj ∧
+    (P0 : ∀ asg0'', BRgL asg0 asg0'' → ∀ σ, cx.ext σ → ∃ X Δ0, eraseAsg σ asg0'' = Δ0 ++ σ ∧ ESim X obj ∧
         WinU lo hi s.counter s0.counter Δ0 ∧
         ∀ Δ2, Avoid s.counter s0.counter Δ2 → erase (Δ2 ++ (Δ0 ++ σ)) idR = (X, Δ2 ++ (Δ0 ++ σ))) :
     let R := callTail csi obj' method msp callee' cargs' csp none none idR asg0 s0
@@ -162,20 +162,20 @@ theorem callTail_plain_Er (csi : CsiMethod) (cx : Cx) (lo hi : Nat) (obj' obj : 
     simp only [Option.some.injEq, Prod.mk.injEq] at he
     obtain ⟨rfl, -⟩ := he
     subst ea eg
-    have hnbm : noBlk (Node.member idR (.pname method msp) csp) = true := noBlk_member nbR (noBlk_pname _ _)
+    have hnbm : noBlk (Node.member idR (.pname method msp) csp) = true := noBlk_memberE nbR (noBlk_pnameE _ _)
     have hnbArgs : noBlkL ([] ++ [exprOrSpread (tempIdent s0.counter) .expr] ++ [.arg none idR] ++ more) = true := by
-      simp [noBlk_exprOrSpread .expr (noBlk_tempIdent _), noBlk_arg nbR, nb]
+      simp [noBlk_exprOrSpreadE .expr (noBlk_tempIdentE _), noBlk_argE nbR, nb]
     intro m hbr σ hσ
     -- what a replacement of nested blocks can have touched
     obtain ⟨first'', asg3'', rfl, hfirst, hasg⟩ := ddParen_BRg_inv hbr hnbArgs
     simp only [insertThis] at hfirst
     obtain ⟨c'', as'', rfl, hcc, has⟩ := hfirst.call_inv
     obtain ⟨a0'', xs'', rfl, ha0, hxs⟩ := BRgL.cons_inv has
-    rw [BRg_noBlk (noBlk_member (noBlk_tempIdent _) (noBlk_pname _ _)) hcc, BRg_noBlk (noBlk_arg nbR) ha0]
+    rw [BRg_noBlk (noBlk_memberE (noBlk_tempIdentE _) (noBlk_pnameE _ _)) hcc, BRg_noBlk (noBlk_argE nbR) ha0]
     obtain ⟨k12, new'', rfl, h12, hnew⟩ := BRgL.append_inv hasg
     obtain ⟨asg0'', k2, rfl, h0, hk2⟩ := BRgL.append_inv h12
     obtain ⟨am'', rfl, ham⟩ := BRgL.single_inv hk2
-    rw [BRg_noBlk (noBlk_tempAssign (by simpa [assignRight] using hnbm)) ham]
+    rw [BRg_noBlk (noBlk_tempAssignE (by simpa [assignRight] using hnbm)) ham]
     obtain ⟨X, Δ0, e0, sX, w0, R0⟩ := P0 asg0'' h0 σ hσ
     -- after the receiver and the member are bound
     have hmem : eraseAsg σ (asg0'' ++ [.assign "=" (tempIdent s0.counter) (assignRight (Node.member idR (.pname method msp) csp) .expr) csp])
